@@ -10,11 +10,6 @@ set_option linter.unusedSectionVars false
 namespace ZV
 variable {F : Type} [Field F] {α β : Type}
 
-theorem sumBy_map (f : β → F) (g : α → β) (l : List α) : sumBy f (l.map g) = sumBy (fun x => f (g x)) l := by
-  induction l with
-  | nil => simp
-  | cons x l ih => simp [ih]
-
 theorem sumBy_neg (f : α → F) (l : List α) : sumBy (fun x => - f x) l = - sumBy f l := by
   induction l with
   | nil => simp
